@@ -493,12 +493,20 @@ SPLAT_SITES = [
 ]
 
 
+SILENT = "consumed silently (not counted as custom content): "
+
+
 def privileged_keys(prog):
     """keywords of the base constructor that change custom-content strictness, derived from the code"""
     init = prog.func("stix2.base::_STIXBase.__init__")
     keys = {}
     if SWITCH in init.all_param_names():
         keys[SWITCH] = "named parameter of _STIXBase.__init__"
+    # every other named parameter of the base constructor is an OPTION too: a key of that name in the data is consumed by the
+    # parameter, never stored, never seen by the extra-property scan -- undefined content passes a strict parse unnoticed
+    for p_ in init.all_param_names():
+        if p_ not in ("self", SWITCH) and p_ != init.kwarg and p_ != init.vararg:
+            keys[p_] = SILENT + "named parameter of _STIXBase.__init__"
     # kwargs.pop('<k>') whose result guards `allow_custom = True`
     for n in body_walk(init.node):
         if isinstance(n, ast.Assign) and isinstance(n.value, ast.Call) and norm(n.value.func) == "kwargs.pop" and n.value.args \
@@ -566,6 +574,15 @@ def rule_privileged_keys(ctx):
                     cj = [norm(x) for x in conjuncts(n.ast.test)]
                     return ("not " + SWITCH) in cj and any("has_custom" in x for x in cj) and any(
                         isinstance(s, ast.Raise) for s in n.ast.body)
+                silent = why.startswith(SILENT)
+                if silent:
+                    run.violation(R, c, "the data splatted into the constructor can carry the key `%s` (%s): it is taken as a constructor "
+                                  "option instead of being refused as a property the specification does not define -- the strict "
+                                  "parse succeeds, has_custom stays false, the key disappears (and the option it sets takes effect)"
+                                  % (pk, why[len(SILENT):]), file=rel, line=call.lineno, function=fi.qualname,
+                                  expected="%s=<the caller's value> passed explicitly (a duplicate in the data then raises TypeError)" % pk,
+                                  found=short(call))
+                    continue
                 if sn is not None and SWITCH in fi.all_param_names():
                     p = g.path_avoiding(sn, g.exit, post, labels_skip=("exc", "raise"))
                     if p is None:
